@@ -52,9 +52,11 @@ class C12(Prop):
         obs["batch"] = C.read_jsonl(p)
         if rc != 0 or not obs["batch"]:
             raise RuntimeError("C12 batch harness did not run: rc=%s\n%s" % (rc, out[-2000:]))
-        rc, out, p, dt = C.go_test_overlay(ctx.work, "./agent/websockets/", "TestVerifC12Deaf$", OVERLAY, "deaf.jsonl", ctx.seed, ctx.tier, timeout=600)
-        obs["deaf"] = C.read_jsonl(p)
-        if rc != 0 or not obs["deaf"]:
+        rc, out, p, dt = C.go_test_overlay(ctx.work, "./agent/websockets/", "TestVerifC12(Deaf|StalledThenGone)$", OVERLAY, "deaf.jsonl", ctx.seed, ctx.tier, timeout=600)
+        rows = C.read_jsonl(p)
+        obs["deaf"] = [r for r in rows if r.get("kind") != "stalled-then-gone"]
+        obs["stalled"] = [r for r in rows if r.get("kind") == "stalled-then-gone"]
+        if rc != 0 or not obs["deaf"] or not obs["stalled"]:
             raise RuntimeError("C12 deaf-backend harness did not run: rc=%s\n%s" % (rc, out[-2000:]))
         rc, out, p, dt = C.go_test_overlay(ctx.work, "./agent/websockets/", "TestVerifC12Conc$", OVERLAY, "conc.jsonl", ctx.seed, ctx.tier, race=True, timeout=2400)
         obs["conc"] = C.read_jsonl(p)
@@ -90,6 +92,14 @@ class C12(Prop):
                     res.append(("batch:message-delivered-to-another-session", "session %s received %s; only %s were addressed to it" % (side.upper(), got, allowed), rp))
                 elif r["status"] == 200 and got != allowed:
                     res.append(("batch:message-lost", "the post was answered 200 but session %s received %s instead of %s" % (side.upper(), got, allowed), rp))
+        for r in obs.get("stalled") or []:
+            rp = {"driver": "TestVerifC12StalledThenGone: 512 KiB data posts to a backend that does not read, until a call waits for room; then the backend's socket is closed", "observed": r}
+            if r.get("error"):
+                res.append(("stalled:harness-precondition", r["error"], rp))
+                continue
+            unanswered = [n for n, st in (("the data call that was waiting for room", r.get("waiting_call_status")), ("a later data call", min(r.get("later_data_statuses") or [0])), ("the close call", r.get("close_status"))) if st == -1]
+            if unanswered:
+                res.append(("stalled:call-never-answered-after-backend-gone", "after the stalled backend went away %s got no HTTP answer" % " and ".join(unanswered), rp))
         for r in obs.get("deaf") or []:
             rp = {"driver": "TestVerifC12Deaf: open, then close, against a backend that is %s; the backend reports whether the agent's end of its socket went away within 3 s" % r["backend"], "observed": r}
             if r.get("open_status") != 200:
